@@ -6,8 +6,8 @@ import (
 )
 
 type rawPathVariable struct {
-	schema          catalog.Schema
-	parameters      []PathParameter
-	pathDirective   directive.Directive // to detect and display an error
-	parentDirective directive.Directive
+	schema        catalog.Schema
+	parameters    []PathParameter
+	pathDirective directive.Directive  // to detect and display an error
+	parent        *directive.Directive // the context the Path directive stands in (its identity, not its coordinates)
 }
